@@ -3,7 +3,7 @@ import json
 import os
 
 from engine import rule, AnchorLost, VERIF
-from model import fn_of, trace, is_place, site, uses_of_local, const_value, strace, Super
+from model import fn_of, trace, is_place, site, uses_of_local, const_value, strace, Super, CLOSURE_CALLS
 import common
 import deny
 
@@ -738,6 +738,141 @@ def r12_5(ctx):
                    f"`{f.get('name')}` makes one attempt and may write only part of the data, or nothing (`Ok(0)`) when the sink is full: the rest is dropped without an error, where write_all would have reported \"failed to write whole buffer\"")
     ctx.ob("bare-write-sites", True, "lib+bin", f"{n} single-attempt write call(s) in xt, each inside a pass-through wrapper", trivial=n == 0)
     deny.control_obligations(ctx, "bare-write")
+
+
+_COUNT_PASS = (
+    "std::ops::Try::branch", "std::result::Result::<T, E>::map_err", "std::result::Result::<T, E>::inspect", "std::result::Result::<T, E>::inspect_err",
+    "std::result::Result::<T, E>::or_else",
+)
+
+
+@rule("R12.7", 1, "a writer wrapper tells its caller how much was really written: the count returned by every `io::Write::write` / `write_vectored` xt implements is the count of the inner writer's own call on that same data (or the data's length after a `write_all` of it) — never a length of the wrapper's own making, which would make `write_all` and `BufWriter` drop what a short write left over", ["C12", "C08", "C15"])
+def r12_7(ctx):
+    n = 0
+    for crate in (ctx.lib, ctx.bin):
+        for b in crate.bodies:
+            if b.raw.get("impl_trait") != "std::io::Write" or b.name not in ("write", "write_vectored") or b.raw["def_kind"] != "AssocFn":
+                continue
+            n += 1
+            sup = Super(crate, b, depth=2)
+            inner = []
+            complete = []
+            for nn, cb, t in sup.calls():
+                f = fn_of(t) or {}
+                if f.get("trait") == "std::io::Write" and len(t["args"]) >= 2:
+                    dt = strace(sup, nn, t["args"][1])
+                    whole = bool(dt.origin and dt.origin[0] == "arg" and dt.origin[1] == 2 and not dt.origin_node[0] and not any(s_[0] in ("field", "index", "downcast") for s_ in dt.steps))
+                    if f["name"] == b.name and whole:
+                        inner.append((nn, t))
+                    elif f["name"] in ("write_all", "write_all_vectored") and whole:
+                        complete.append((nn, t))
+            if not inner and not complete and not any((fn_of(t) or {}).get("trait") == "std::io::Write" for _, _, t in sup.calls()):
+                ctx.ob(f"count-is-inner:{crate.kind}:{b.raw.get('impl_self_adt') or b.raw.get('impl_self_ty')}:{b.name}", True, site(b), "a sink of its own (no inner writer is called): its count is its own business", trivial=True)
+                continue
+            bad = []
+            n_ok = 0
+            for rb in b.return_blocks():
+                for bb_, idx, kind, payload in b.whole_defs(0):
+                    if kind == "call":
+                        f = fn_of(payload) or {}
+                        if any(payload is t for _, t in inner):
+                            n_ok += 1
+                            continue
+                        if f.get("def") == "std::ops::FromResidual::from_residual":
+                            continue  # the error edge of `?`
+                        tr = strace(sup, ((), bb_), {"k": "copy", "p": {"l": 0, "pr": []}}, extra=_COUNT_PASS)
+                        if tr.origin and tr.origin[0] == "call" and any(tr.origin[2] is t for _, t in inner):
+                            n_ok += 1
+                            continue
+                        # a helper of the wrapper that ends in the inner call (`self.check(self.0.write(buf))`)
+                        argt = [strace(sup, ((), bb_), a, extra=_COUNT_PASS) for a in payload["args"] if is_place(a)]
+                        if any(a.origin and a.origin[0] == "call" and any(a.origin[2] is t for _, t in inner) for a in argt):
+                            n_ok += 1
+                            continue
+                        # `self.guarded(|w| w.write(buf))`: a helper of the wrapper runs a closure that ends in the inner
+                        # call, and returns what the closure returned
+                        hb = crate.by_id.get(f.get("resolved") or f.get("def")) if f.get("local") else None
+                        via_closure = False
+                        if hb is not None:
+                            for a in payload["args"]:
+                                if not is_place(a):
+                                    continue
+                                at = trace(b, a)
+                                cid = at.origin[1]["rv"].get("closure") if at.origin and at.origin[0] == "agg" and at.origin[1]["rv"].get("agg") == "closure" else None
+                                cbody = crate.by_id.get(cid)
+                                if cbody is None:
+                                    continue
+                                tail = [t_ for _, t_ in cbody.calls() if (fn_of(t_) or {}).get("trait") == "std::io::Write" and (fn_of(t_) or {}).get("name") == b.name and not t_["dest"]["pr"] and t_["dest"]["l"] == 0]
+                                runs = [(cb_, ct_) for cb_, ct_ in hb.calls() if (fn_of(ct_) or {}).get("def") in CLOSURE_CALLS]
+                                if not tail or len(runs) != 1:
+                                    continue
+                                rl = runs[0][1]["dest"]["l"]
+                                hands_back = True
+                                run_t = runs[0][1]
+
+                                def from_run(op_):
+                                    ht = trace(hb, op_, passthrough_extra=_COUNT_PASS)
+                                    if ht.origin and ht.origin[0] == "call" and ht.origin[2] is run_t:
+                                        return True
+                                    if ht.origin and ht.origin[0] == "multi" and all((k_ == "call" and p_ is run_t) for _, _, k_, p_ in ht.origin[2]):
+                                        return True
+                                    return is_place(op_) and not op_["p"]["pr"] and op_["p"]["l"] == rl
+
+                                for hb_, hidx, hkind, hpay in hb.whole_defs(0):
+                                    if hkind == "call":
+                                        if hpay is run_t or (fn_of(hpay) or {}).get("def") == "std::ops::FromResidual::from_residual":
+                                            continue
+                                        # `op(..).map_err(..)` / `.or_exit_on_broken_pipe()`: something applied to the result
+                                        if any(is_place(a_) and from_run(a_) for a_ in hpay["args"]):
+                                            continue
+                                    if hkind == "assign" and hpay["rv"]["k"] == "use" and is_place(hpay["rv"]["op"]) and from_run(hpay["rv"]["op"]):
+                                        continue
+                                    if hkind == "assign" and hpay["rv"]["k"] == "aggregate" and hpay["rv"].get("variant") == "Err":
+                                        continue
+                                    if hkind == "assign" and hpay["rv"]["k"] == "aggregate" and hpay["rv"].get("variant") == "Ok" and hpay["rv"]["ops"] and is_place(hpay["rv"]["ops"][0]) and from_run(hpay["rv"]["ops"][0]):
+                                        continue
+                                    hands_back = False
+                                via_closure = hands_back
+                        if via_closure:
+                            n_ok += 1
+                            continue
+                        bad.append(f"the result comes from `{f.get('def')}`")
+                    elif kind == "assign" and payload["rv"]["k"] == "aggregate" and payload["rv"].get("variant") == "Ok" and payload["rv"]["ops"]:
+                        x = payload["rv"]["ops"][0]
+                        tr = strace(sup, ((), bb_), x, extra=_COUNT_PASS)
+                        if tr.origin and tr.origin[0] == "call" and any(tr.origin[2] is t for _, t in inner) and any(s_[0] == "downcast" and s_[1] in ("Continue", "Ok") for s_ in tr.steps):
+                            n_ok += 1
+                            continue
+                        if tr.origin and tr.origin[0] == "call" and (fn_of(tr.origin[2]) or {}).get("local") and any(s_[0] == "downcast" and s_[1] in ("Continue", "Ok") for s_ in tr.steps):
+                            # `let n = self.check(self.0.write(buf))?; Ok(n)`: through a helper of the wrapper
+                            hn = (tr.origin_node[0], tr.origin[1])
+                            argt = [strace(sup, hn, a, extra=_COUNT_PASS) for a in tr.origin[2]["args"] if is_place(a)]
+                            if any(a.origin and a.origin[0] == "call" and any(a.origin[2] is t for _, t in inner) for a in argt):
+                                n_ok += 1
+                                continue
+                        lt = strace(sup, ((), bb_), x)
+                        is_len = bool(lt.origin and lt.origin[0] == "call" and (fn_of(lt.origin[2]) or {}).get("name") == "len")
+                        if is_len and complete and all(sup.dominates(cn, ((), bb_)) for cn, _ in complete[:1]):
+                            n_ok += 1
+                            continue
+                        if const_value(x) == 0 and not is_place(x):
+                            n_ok += 1  # `Ok(0)`: nothing accepted, the caller keeps the data
+                            continue
+                        bad.append("`Ok(<a length of the wrapper's own>)`: the inner writer's count is dropped" if is_len else "the Ok count is not the inner writer's")
+                    elif kind == "assign" and payload["rv"]["k"] == "use":
+                        tr = strace(sup, ((), bb_), payload["rv"]["op"], extra=_COUNT_PASS)
+                        if tr.origin and tr.origin[0] == "call" and any(tr.origin[2] is t for _, t in inner):
+                            n_ok += 1
+                            continue
+                        bad.append("the result is copied from something other than the inner call")
+                    else:
+                        bad.append("result of unknown making")
+                break
+            ok = not bad and n_ok >= 1
+            ctx.ob(f"count-is-inner:{crate.kind}:{b.raw.get('impl_self_adt') or b.raw.get('impl_self_ty')}:{b.name}", ok, site(b),
+                   f"{n_ok} return value(s), each the inner `{b.name}`'s own result ({len(inner)} inner call(s) on the caller's data)" if ok else
+                   f"{'; '.join(sorted(set(bad))) or 'no return value derives from an inner call on the caller data'}: after a short write the caller believes everything was written and the rest is lost without an error")
+    ctx.ob("writer-wrappers", n >= 1, "lib+bin", f"{n} io::Write::write / write_vectored implementation(s) in xt examined")
 
 
 @rule("R12.6", 1, "an I/O error is handed on as it is: no `io::Error` is rebuilt from the bare `ErrorKind` of another error (`err.kind().into()`, `io_error_kind()` -> `io::Error::from`), which keeps the category but drops the source's own message", ["C12", "C11"])
